@@ -264,9 +264,16 @@ func c10Chain(c *lib.Ctx, idx uint64) {
 	c.SetInflight(chain)
 	ch := lib.Chunkers(rng)[rng.Intn(14)]
 	r := &lib.Reader{Data: chain, Limit: len(chain), Ch: ch}
+	// half of the chains are decoded with the unknown-item options: each file must report what it reports alone
+	var opts []fit.DecodeOption
+	withOpts := rng.Chance(1, 2)
+	if withOpts {
+		opts = []fit.DecodeOption{fit.WithUnknownFields(), fit.WithUnknownMessages()}
+		c.Count("chains_with_unknown_options", 1)
+	}
 	var files []*fit.File
 	var err error
-	o := lib.Guard(func() { files, err = fit.DecodeChained(r) })
+	o := lib.Guard(func() { files, err = fit.DecodeChained(r, opts...) })
 	c.Eval()
 	if o.Panicked || o.Hang {
 		c.Violation(chain, "DecodeChained panicked/hung on a chain of %d valid files (chunker %s): %s", k, ch, o.Panic)
@@ -281,13 +288,13 @@ func c10Chain(c *lib.Ctx, idx uint64) {
 		return
 	}
 	for i, part := range parts {
-		solo, serr, so := lib.GuardedDecode(part)
+		solo, serr, so := lib.GuardedDecode(part, opts...)
 		c.Eval()
 		if so.Panicked || serr != nil {
 			c.Violation(part, "solo Decode of chain member %d failed: %v %s", i, serr, so.Panic)
 			return
 		}
-		if diffs := lib.CompareContent(lib.FileContent(solo), lib.FileContent(files[i]), lib.CompareOpts{Header: true, Skip: distanceSkip(solo)}); len(diffs) > 0 {
+		if diffs := lib.CompareContent(lib.FileContent(solo), lib.FileContent(files[i]), lib.CompareOpts{Header: true, Unknown: true, Skip: distanceSkip(solo)}); len(diffs) > 0 {
 			c.Violation(chain, "file %d of a chain of %d decodes differently than alone: %s", i+1, k, lib.DiffsString(diffs, 3))
 			return
 		}
